@@ -6,6 +6,7 @@ import (
 	"sort"
 	"strconv"
 	"strings"
+	"sync"
 
 	"golang.org/x/tools/go/ssa"
 )
@@ -34,13 +35,14 @@ func parseTag(tag string) (name string, opts string, skip bool) {
 	return v, "", false
 }
 
-var jFieldCache = map[string][]jField{}
+// jFieldCache is shared by the engines of parallel jobs
+var jFieldCache sync.Map // string -> []jField
 
 // structFields computes the JSON fields of a struct type following encoding/json's dominance rules.
 func structFields(t types.Type) []jField {
 	key := types.TypeString(t, nil)
-	if c, ok := jFieldCache[key]; ok {
-		return c
+	if c, ok := jFieldCache.Load(key); ok {
+		return c.([]jField)
 	}
 	st := t.Underlying().(*types.Struct)
 	type cand struct {
@@ -138,7 +140,7 @@ func structFields(t types.Type) []jField {
 		}
 		return len(a) < len(b)
 	})
-	jFieldCache[key] = res
+	jFieldCache.Store(key, res)
 	return res
 }
 
